@@ -1,6 +1,6 @@
 SPECIFICATION Spec
-CONSTANT Depth = 6
-CONSTANT MaxW = 7
+CONSTANT Depth = 4
+CONSTANT MaxW = 6
 CONSTANT Small = FALSE
 CONSTRAINT Bound
 VIEW View
